@@ -157,7 +157,14 @@ def run(tier: str) -> Run:
     for name in ('wavelength_to_inverse_velocity', 'propagate_times'):
         plan.append((repo.func('tof.chopper_cascade', name), CASCADE_SPECS))
     for fi, ov in plan:
-        outs = run_kernel(repo, fi, specs_for(fi, ov))
+        try:
+            specs = specs_for(fi, ov)
+        except AnalysisError as ex:
+            # a public function of a kernel module whose parameters have no physical role in the table (not a conversion kernel):
+            # R1 decides it through the effect summaries
+            r1b.ok(fi.fq, {'decided_by': 'R1', 'reason': str(ex)[:120]}, nontrivial=False)
+            continue
+        outs = run_kernel(repo, fi, specs)
         writes = [dict(e.detail, where=e.where) for o in outs for e in events(o, 'mutates-param')]
         uniq = list({w['where'] + w['param']: w for w in writes}.values())
         r1b.check(not uniq, fi.fq, loc(fi), {'writes': uniq[:3]}, key=fi.fq)
